@@ -17,7 +17,7 @@ import (
 	"github.com/facebookincubator/dns/dnsrocks/zzverif/nd"
 )
 
-//verif:harness H06_life property=C06 native=no quick=ops=3,readers=1,sched=0,ctl=0,sorted=0;ops=4,readers=2,sched=0,ctl=0,sorted=0;ops=2,readers=1,sched=1,ctl=0,sorted=0;ops=3,readers=1,sched=0,ctl=1,sorted=0;ops=3,readers=1,sched=0,ctl=0,sorted=1 thorough=ops=5,readers=2,sched=0,ctl=0,sorted=0;ops=2,readers=1,sched=2,ctl=0,sorted=0;ops=4,readers=3,sched=0,ctl=0,sorted=0;ops=4,readers=2,sched=0,ctl=1,sorted=0;ops=4,readers=2,sched=0,ctl=0,sorted=1
+//verif:harness H06_life property=C06 native=no quick=ops=3,readers=1,sched=0,ctl=0,sorted=0;ops=4,readers=2,sched=0,ctl=0,sorted=0;ops=2,readers=1,sched=1,ctl=0,sorted=0;ops=3,readers=1,sched=0,ctl=1,sorted=0;ops=3,readers=1,sched=0,ctl=0,sorted=1 thorough=ops=2,readers=1,sched=2,ctl=0,sorted=0;ops=4,readers=3,sched=0,ctl=0,sorted=0;ops=4,readers=2,sched=0,ctl=1,sorted=0;ops=4,readers=2,sched=0,ctl=0,sorted=1
 //verif:subst H06_life os.RemoveAll github.com/facebookincubator/dns/dnsrocks/dnsserver.verifRemoveAll
 
 type verifLifeCtx struct{}
